@@ -1,5 +1,5 @@
 import ChythonModel.Py.Wire
-import ChythonModel.Model.C02RoundTrip
+import ChythonModel.Model.C02ReRead
 /-!
 Line-protocol driver for C02.  All arguments are ints:
 
